@@ -5,7 +5,7 @@ def register(claim, na):
           "exhaustive enumeration of request expressions x host grid against a reference sufficiency predicate",
           "Every request expression built from the term alphabet (cpu mem x cores, cuda mem x count, duration; & up to 3 terms, | of 2 alternatives; "
           "programmatic and textual in 3 whitespace layouts) is evaluated on every host of a 168-host grid; match() is compared with an independent "
-          "sufficiency predicate, parse() with the programmatic value, operands are deep-snapshotted around &, *, |; LauncherRegistry.find over two hosts "
+          "sufficiency predicate, parse() with the programmatic value, operands are deep-snapshotted around &, *, | (also a union extended by a third alternative on either side: the union is an operand too, its structure and its matches must not change); LauncherRegistry.find over two hosts "
           "examined in sequence must return the launcher of the first alternative some host satisfies. Complete within the alphabet; "
           "a closed finite product is the right level for a pure function of two small structures.",
           "Alphabet bounds (3 memory sizes, 3 core counts, <=3 GPUs, 3 durations); host policies min_memory/priority left at defaults; humanfriendly's size/timespan parsing trusted.",
@@ -121,7 +121,7 @@ def register(claim, na):
           "FIFO, JOBS-FIRST and LIFO default policies (so the restart happens at once, after the orphans finished, or before them), the job processes "
           "live on, the script is run again in a fresh simulated process and its continuation explored with up to one deviation; over both runs every "
           "successful body must have executed exactly once and never twice at a time, the second run must end all DONE without hang/exception, no "
-          "token file may remain and available == total. A generated script left empty, truncated or non-executable by the kill is refused by the virtual Popen / interpreter as by the real ones.",
+          "token file may remain and available == total. A generated script left empty, truncated or non-executable by the kill is refused by the virtual Popen / interpreter as by the real ones. The scheduler-side lock class of the tree is executed (fasteners itself is virtual); plus real processes: a holder of the run lock through that class, a job process arriving meanwhile (stopped at every 4th / every traced line), the holder leaves, the job is held in its body, a second job process must wait.",
           W_NOTE + " SIGINT (handler -> experiment.stop()) is not explored.", "DESIGN.md 3/C11")
     claim("C16", "W", "model_checking",
           "exhaustive enumeration of run histories of one experiment name (plus schedules within the deviation bound and kill points) on the real scheduler, index read after every run",
@@ -129,7 +129,7 @@ def register(claim, na):
           "without waiting under <=1 deviation from three policies, a completed run followed by a run killed at every scheduling point and re-run, two "
           "processes entering the same experiment: after every run jobs/ must equal the run's plan with resolving links and no jobs.bak (normal end), "
           "or jobs + jobs.bak must still contain the last completed plan (abort/kill), and the real `orphans` command must list none of them. The lock "
-          "model follows POSIX record locks (per process and per open FILE - inode-keyed, a waiter keeps the unlinked file open; dropped when the process closes any descriptor of the file); three holders of one experiment (a waiter inside when the first process re-enters; three processes).",
+          "model follows POSIX record locks (per process and per open FILE - inode-keyed, a waiter keeps the unlinked file open; dropped when the process closes any descriptor of the file); three holders of one experiment (a waiter inside when the first process re-enters; three processes); histories ending with a DRY_RUN / GENERATE_ONLY run, which must leave the index and the backup as they were.",
           W_NOTE, "DESIGN.md 3/C16")
 
     claim("C10", "K", "fault_enumeration",
@@ -150,7 +150,7 @@ def register(claim, na):
           "(marker state incl. a re-launched job still carrying its failure marker x tag x membership in jobs / jobs.bak / none; thorough: three jobs) "
           "is built on disk and `jobs clean` (+-filter, +-perform) and `orphans` (+-clean) are run through the real click CLI; the set of directories "
           "that disappeared must equal the expected deletion set (nothing without --perform, never a job whose process is alive). A third tag carries "
-          "values and patterns with dots, digits and backslashes. `jobs clean --perform` also with a failed job launched again between the processing of any two jobs (every failed job x every moment): it must survive.",
+          "values and patterns with dots, digits and backslashes. `jobs clean --perform` also with a failed job launched again between the processing of any two jobs (every failed job x every moment): it must survive. Job directories also hold files whose names merely end like a marker (task.epoch-3.done, task.step.failed, task.old.pid).",
           "Closed alphabets (2 tags x 3 values, 4 states, 9 commands). Mixed and/or chains without parentheses are not enumerated (no documented "
           "precedence). `jobs kill` is outside the statement.", "DESIGN.md 3/C19")
 
@@ -171,5 +171,5 @@ def register(claim, na):
           "(virtual world) with the class not yet deprecated; from each, `deprecated list`, `--fix`, `--fix --cleanup` are applied in every order until "
           "no new canonical jobs/ tree appears (previously linked and partially repaired states arise by themselves); in every state the job data must "
           "still exist; after any --fix the new path must resolve to the old files and re-submitting the replacement class in a virtual experiment "
-          "must launch nothing. Layouts include a replacement-type directory that lives elsewhere and is linked into jobs/. One known finding (renamed class) is listed in known_findings.txt.",
+          "must launch nothing. Layouts include a replacement-type directory that lives elsewhere and is linked into jobs/, a two-step deprecation, and a job that depends on the deprecated class only through the output of an upstream task. One known finding (renamed class) is listed in known_findings.txt.",
           G_NOTE + " Two deprecated pairs (moved, renamed), <=2 former jobs per workspace.", "DESIGN.md 3/C20")
